@@ -254,9 +254,9 @@ class Lib:
         if sc is not None and mask.ndim == 1:
             ia, _mem, _wit, v, base = sc
             if (base is None or (getattr(base, "all_zero", False) and base.kind == "b")) and v is True:
-                # counting lemma (trusted, the complement form of the scatter-of-ones lemma): a mask that is False exactly at k pairwise
+                # counting lemma (contracts/lemmas.py: complement_count, proved by induction): a mask that is False exactly at k pairwise
                 # distinct in-range positions has n - k True entries
-                _used(E, "count of the complement of k distinct positions = n - k (trusted counting lemma)")
+                _used(E, "count of the complement of k distinct positions = n - k (lemmas.complement_count)")
                 k_ = to_int(ia.shape[0])
                 t, u = z3.Ints("cl_t cl_u")
                 distinct = z3.ForAll([t, u], z3.Implies(z3.And(0 <= t, t < u, u < k_), to_int(ia.sel(t)) != to_int(ia.sel(u))))
@@ -1659,7 +1659,7 @@ def count_true(E, a, st):
     sc = getattr(a, "scatter", None)
     if sc is not None:
         ia, mem, wit, v, base = sc
-        # lemma (trusted, cross-checked at run time): ones scattered into zeros at n pairwise distinct in-range
+        # lemma (contracts/lemmas.py: scatter_count, proved by induction): ones scattered into zeros at n pairwise distinct in-range
         # positions sum up to n; in general the sum is at most n
         n = to_int(ia.shape[0])
         t, u = z3.Ints("t u")
